@@ -786,11 +786,12 @@ func (tr *Trans) makeInterface(x *ssa.MakeInterface) {
 	ct := x.X.Type()
 	id := tr.g.typeID(ct)
 	var r Term
-	if len(v.C) == 1 && v.C[0].Sort == SInt && v.Addr == nil {
-		f := tr.e.declareFun(fmt.Sprintf("box$%d", id), []Sort{SInt}, SInt)
-		uf := tr.e.declareFun(fmt.Sprintf("unbox$%d", id), []Sort{SInt}, SInt)
+	if len(v.C) == 1 && (v.C[0].Sort == SInt || v.C[0].Sort == SBool || v.C[0].Sort == SReal) && v.Addr == nil {
+		vs := v.C[0].Sort
+		f := tr.e.declareFun(fmt.Sprintf("box$%d", id), []Sort{vs}, SInt)
+		uf := tr.e.declareFun(fmt.Sprintf("unbox$%d", id), []Sort{SInt}, vs)
 		r = Term{fmt.Sprintf("(%s %s)", f, v.C[0].S), SInt}
-		tr.e.assertRaw(eq(Term{fmt.Sprintf("(%s %s)", uf, r.S), SInt}, v.C[0]))
+		tr.e.assertRaw(eq(Term{fmt.Sprintf("(%s %s)", uf, r.S), vs}, v.C[0]))
 	} else {
 		r = tr.e.fresh("boxed", SInt)
 	}
@@ -830,9 +831,9 @@ func (tr *Trans) typeAssert(x *ssa.TypeAssert) {
 		id := tr.g.typeID(at)
 		ok = and(not(eq(v.C[0], intT(0))), eq(tr.dynType(v.C[0]), intT(int64(id))))
 		cs := comps(at)
-		if len(cs) == 1 && cs[0].Sort == SInt {
-			uf := tr.e.declareFun(fmt.Sprintf("unbox$%d", id), []Sort{SInt}, SInt)
-			res = Val{T: at, C: []Term{{fmt.Sprintf("(%s %s)", uf, v.C[0].S), SInt}}}
+		if len(cs) == 1 && (cs[0].Sort == SInt || cs[0].Sort == SBool || cs[0].Sort == SReal) {
+			uf := tr.e.declareFun(fmt.Sprintf("unbox$%d", id), []Sort{SInt}, cs[0].Sort)
+			res = Val{T: at, C: []Term{{fmt.Sprintf("(%s %s)", uf, v.C[0].S), cs[0].Sort}}}
 			tr.assumeTyped(res, tr.st, tr.rc)
 		} else {
 			res = tr.freshVal(at, "unboxed", tr.st, tr.rc)
